@@ -18,15 +18,15 @@ RULE = ("generated *_test.ucg files (0-8 items: true/false asserts in literal, c
 
 PROBES = ["failing_file_before_passing_file", "asserting_lib_imported_by_two_tests", "type_fail_path_seen", "dir_order_differs_from_argv_sorted",
           "build_error_after_assertions", "file_listed_twice", "nested_dir_failure_only", "failing_lib_assert_shared", "assert_in_module_body",
-          "unlistable_directory_in_walk", "symlinked_test_file", "directory_with_only_subdirectories"]
-FAULT_KINDS = ["nonutf8_test_file", "dangling_test_file", "missing_library", "unlistable_directory"]
+          "unlistable_directory_in_walk", "symlinked_test_file", "directory_with_only_subdirectories", "same_spelling_different_helpers", "stdout_reader_gone"]
+FAULT_KINDS = ["nonutf8_test_file", "dangling_test_file", "missing_library", "unlistable_directory", "stdout_closed"]
 TIERS = {
     "quick": {"runs": 420, "wall_cap": 200},
     "thorough": {"runs": 9000, "wall_cap": 3300, "reexecute": 80},
 }
 
 ASSERT_FORMS = ["literal", "computed", "via_func", "std_ok", "std_not_ok", "std_equal"]
-MALFORMED = ["nontuple", "ok_int", "desc_int", "no_ok", "no_desc", "ok_string"]
+MALFORMED = ["nontuple", "ok_int", "desc_int", "no_ok", "no_desc", "ok_string", "both_bad", "neither_field", "empty_list"]
 ERRORS = ["fail", "missing_import", "type", "syntax", "runtime_opaque", "static_malformed", "div_zero", "format_too_few_args"]
 
 
@@ -85,7 +85,13 @@ def generate(rng, tier, idx):
             t["symlinked"] = True      # a healthy test file that is a symbolic link to a file kept elsewhere
         tests.append(t)
     world = {"libs": libs, "tests": tests, "strict": not rng.chance(10), "missing_lib": None,
-             "creation": rng.shuffle(list(range(ntests)))}
+             "creation": rng.shuffle(list(range(ntests))),
+             # every directory that holds tests has its own `helper.ucg`, imported by its tests under the same spelling "./helper.ucg";
+             # the helpers differ in the type of what they export
+             "helpers": rng.chance(30)}
+    if world["helpers"]:
+        for t in tests:
+            t["uses_helper"] = rng.chance(70)
     if nlibs and rng.chance(6):
         world["missing_lib"] = rng.below(nlibs)
     n = ntests
@@ -102,6 +108,9 @@ def generate(rng, tier, idx):
         o = rng.shuffle(list(range(n)))[:rng.between(1, min(2, n))]
         scheds.append({"mode": "files", "order": o + [o[0]], "twice": True})
     scheds.append({"mode": rng.choice(["dir", "dir_r", "noargs", "noargs_r", "dir_r_abs"])})
+    if rng.chance(10) and n > 0:
+        # the reader of standard output has gone away: nothing can be reported, but a failing file must still fail the run
+        scheds.append({"mode": "files", "order": rng.shuffle(list(range(n))), "stdout_closed": True})
     if rng.chance(12):
         # a recursive walk that runs out of file descriptors somewhere below (a chain of empty directories deeper than the limit allows):
         # listing that sub-directory fails; the files that can be reached keep their verdicts and a failing file still fails the run
@@ -141,6 +150,10 @@ def render_test(world, ti):
         if not rel.startswith("."):
             rel = "./" + rel
         L.append('let l%d = import "%s";' % (li, rel))
+    if world.get("helpers") and t.get("uses_helper"):
+        kind = helper_kind(t["dir"])
+        L.append('let hlp = import "./helper.ucg";')
+        L.append("let hlp_used = hlp.val + %s;" % ("1" if kind == "int" else '"s"'))
     for it in t["items"]:
         u = it["uid"]
         if it["k"] == "assert":
@@ -182,6 +195,12 @@ def render_test(world, ti):
                 L.append('assert idf({desc = "%s"});' % u)
             elif form == "no_desc":
                 L.append('assert idf({ok = true, tag = "%s"});' % u)
+            elif form == "both_bad":      # wrong in both fields at once: still one assertion, one log entry
+                L.append('assert idf({ok = 1, desc = 2, tag = "%s"});' % u)
+            elif form == "neither_field":
+                L.append('assert idf({tag = "%s"});' % u)
+            elif form == "empty_list":
+                L.append('assert idf(["%s"]);' % u)
         elif it["k"] == "error":
             form = it["form"]
             if form == "fail":
@@ -201,6 +220,14 @@ def render_test(world, ti):
             elif form == "static_malformed":
                 L.append('assert {ok = 1, desc = "%s"};' % u)
     return "\n".join(L) + "\n"
+
+
+def helper_kind(d):
+    return "int" if d == "" else ("str" if d == "nested" else "int")
+
+
+def helper_text(d):
+    return "let val = 7;\n" if helper_kind(d) == "int" else 'let val = "seven";\n'
 
 
 def render(world):
@@ -360,6 +387,10 @@ def execute(world, sb, res):
             if world["missing_lib"] == j:
                 continue
             sb.write(proj + "/" + lib_path(lib), render_lib(world, j))
+        if world.get("helpers"):
+            for d in sorted(set(t["dir"] for t in tests)):
+                sb.write(proj + "/" + (d + "/" if d else "") + "helper.ucg", helper_text(d))
+            res.probe("same_spelling_different_helpers")
         for i in world["creation"]:
             t = tests[i]
             if t["fault"] == "nonutf8_test_file":
@@ -393,6 +424,19 @@ def execute(world, sb, res):
         if nofile:
             sb.mkdir(proj + "/zz_deep/" + "/".join("d%d" % k for k in range(sc["chain"])))
             res.probe("unlistable_directory_in_walk")
+        if sc.get("stdout_closed"):
+            inv = sb.invoke(argv, cwd=proj, stdout_closed=True)
+            res.probe("stdout_reader_gone")
+            if "Broken pipe" in inv.out:
+                res.fault("stdout_closed")
+            res.history.append({"argv": [a.replace(sb.root + "/" + base, "<W>") for a in argv], "status": inv.status, "stdout": "closed"})
+            want_fail = any(models[i]["verdict"] == "FAIL" for i in sc["order"])
+            if inv.timed_out:
+                res.violate("C13.terminates", "stdout-closed", "ucg test did not terminate with its standard output closed")
+            elif want_fail and inv.status == 0:
+                res.violate("C13.exit-status", "zero-with-failure-stdout-closed", "exit status 0 with standard output closed although %s fail(s)\nstderr: %s" % (
+                    [test_path(tests[i]) for i in sc["order"] if models[i]["verdict"] == "FAIL"], inv.out[-600:].replace(sb.root + "/" + base, "<W>")))
+            continue
         inv = sb.invoke(argv, cwd=proj, nofile=nofile)
         if nofile and "Too many open files" in inv.out:
             res.fault("unlistable_directory")
